@@ -375,7 +375,151 @@ fn c13_inloop(ctx: &CheckCtx, _hp: &'static HistProp) -> Option<Found> {
     ctx.search("inloop", c11::in_strategy(), ctx.tier.pick(5_000, 150_000), 8, None, |c| c13_keep(c11::run_inloop(c)))
 }
 
+// A dispatch whose poll comes back with a completely full event buffer (1024 events) is still ONE dispatch: its idle
+// callbacks run after all of its source callbacks, an idle queued by an idle callback runs in a later dispatch, and
+// whatever did not fit is delivered by the following dispatches. Family over n ping sources all pinged at once,
+// n around and above the buffer size.
+#[derive(serde::Serialize, serde::Deserialize, Debug, Clone, Hash, PartialEq, Eq)]
+pub struct FbCase {
+    /// number of ping sources, all ready at the first dispatch
+    pub n: u16,
+    /// idle callbacks queued before the first dispatch
+    pub idles: u8,
+    /// every idle callback queues a follow-up idle when it runs
+    pub chain: bool,
+    /// timeout of each dispatch in ms (0 = non-blocking)
+    pub timeout_ms: u8,
+}
+
+fn fb_strategy() -> impl Strategy<Value = FbCase> {
+    (prop_oneof![2 => 1000u16..1030, 2 => 1030u16..1300, 1 => 2040u16..2060, 1 => 1u16..1000], 1u8..=3, any::<bool>(), prop_oneof![3 => Just(0u8), 1 => 1u8..4])
+        .prop_map(|(n, idles, chain, timeout_ms)| FbCase { n, idles, chain, timeout_ms })
+}
+
+fn run_full_batch(c: &FbCase) -> CaseOutcome {
+    use calloop::EventLoop;
+    use std::cell::RefCell;
+    use std::rc::Rc;
+    #[derive(Clone, Copy, PartialEq, Debug)]
+    enum L {
+        Src(u16),
+        Idle(u16),
+    }
+    let n = c.n.clamp(1, 2100) as usize;
+    let mut info = CaseInfo { fingerprint: crate::evidence::fingerprint(c), ..CaseInfo::default() };
+    info.classes.push(if n >= 1024 { "full_event_buffer" } else { "below_event_buffer" });
+    info.nontrivial = n >= 1024;
+    let mut el: EventLoop<()> = EventLoop::try_new().expect("event loop");
+    let h = el.handle();
+    let log: Rc<RefCell<Vec<L>>> = Default::default();
+    let mut pings = Vec::with_capacity(n);
+    for i in 0..n {
+        let (p, s) = match calloop::ping::make_ping() {
+            Ok(x) => x,
+            Err(_) => {
+                info.classes.push("inconclusive:fd_limit");
+                info.nontrivial = false;
+                return (info, None);
+            }
+        };
+        let l = log.clone();
+        h.insert_source(s, move |_, _, _| l.borrow_mut().push(L::Src(i as u16))).expect("insert ping");
+        p.ping();
+        pings.push(p);
+    }
+    // idle callbacks: ids 0.. for the initial ones, 100 + parent for the chained ones
+    for k in 0..c.idles.clamp(1, 3) as u16 {
+        let l = log.clone();
+        let h2 = h.clone();
+        let chain = c.chain;
+        let _ = h.insert_idle(move |_| {
+            l.borrow_mut().push(L::Idle(k));
+            if chain {
+                let l2 = l.clone();
+                let _ = h2.insert_idle(move |_| l2.borrow_mut().push(L::Idle(100 + k)));
+            }
+        });
+    }
+    let v = |sig: &str, d: String| Some(Violation::new("C13.phase", d).with_sig(format!("C13.phase/{sig}")));
+    let mut delivered = vec![0u32; n];
+    let mut idle_at: Vec<(u16, usize)> = Vec::new();
+    let mut viol = None;
+    let max_dispatches = n / 1024 + 4;
+    for d in 0..max_dispatches {
+        log.borrow_mut().clear();
+        if let Err(e) = el.dispatch(Some(std::time::Duration::from_millis(c.timeout_ms.min(4) as u64)), &mut ()) {
+            viol = v("full-batch-dispatch-error", format!("dispatch #{d} over {n} ready ping sources failed: {e}"));
+            break;
+        }
+        let lg = log.borrow().clone();
+        let first_idle = lg.iter().position(|e| matches!(e, L::Idle(_)));
+        if let Some(fi) = first_idle {
+            if let Some(off) = lg[fi..].iter().position(|e| matches!(e, L::Src(_))) {
+                viol = v(
+                    "full-batch-source-after-idle",
+                    format!(
+                        "dispatch #{d} over {n} ready ping sources: a source callback ran after an idle callback within one dispatch call ({} source callbacks, first idle at position {fi}, next source callback at position {})",
+                        lg.iter().filter(|e| matches!(e, L::Src(_))).count(),
+                        fi + off
+                    ),
+                );
+                break;
+            }
+        }
+        for e in &lg {
+            match e {
+                L::Src(i) => delivered[*i as usize] += 1,
+                L::Idle(k) => idle_at.push((*k, d)),
+            }
+        }
+        if d == 0 && n >= 1024 && lg.iter().filter(|e| matches!(e, L::Src(_))).count() < n {
+            info.classes.push("first_dispatch_left_events_for_the_next");
+        }
+    }
+    if viol.is_none() {
+        for k in 0..c.idles.clamp(1, 3) as u16 {
+            let first = idle_at.iter().filter(|(i, _)| *i == k).map(|(_, d)| *d).collect::<Vec<_>>();
+            if first != vec![0] {
+                viol = v("full-batch-idle-count", format!("idle callback {k} queued before the first dispatch ran in dispatches {first:?}, expected exactly once in dispatch #0 ({n} ready sources)"));
+                break;
+            }
+            if c.chain {
+                let second = idle_at.iter().filter(|(i, _)| *i == 100 + k).map(|(_, d)| *d).collect::<Vec<_>>();
+                if second != vec![1] {
+                    viol = v(
+                        "full-batch-chained-idle",
+                        format!("the idle callback queued by idle callback {k} (which ran in dispatch #0) ran in dispatches {second:?}, expected exactly once, in dispatch #1 ({n} ready sources)"),
+                    );
+                    break;
+                }
+            }
+        }
+    }
+    if viol.is_none() {
+        if let Some(i) = delivered.iter().position(|c| *c != 1) {
+            // (C02's business; reported here under C13's name only as part of this family's end state)
+            viol = v("full-batch-delivery", format!("ping source {i} of {n} (each pinged once) ran its callback {} time(s) over {max_dispatches} dispatches", delivered[i]));
+        }
+    }
+    drop(pings);
+    (info, viol)
+}
+
+fn c13_extra(ctx: &CheckCtx, hp: &'static HistProp) -> Option<Found> {
+    if let Some(f) = c13_inloop(ctx, hp) {
+        return Some(f);
+    }
+    if let Some(f) = ctx.run_replays::<FbCase, _>("full_batch", run_full_batch) {
+        return Some(f);
+    }
+    ctx.search("full_batch", fb_strategy(), ctx.tier.pick(300, 6_000), 4, None, run_full_batch)
+}
+
 pub fn c13_replay(sub: &str, case: serde_json::Value) -> Result<Option<Violation>, String> {
+    if sub == "full_batch" {
+        let c: FbCase = serde_json::from_value(case).map_err(|e| e.to_string())?;
+        return Ok(run_full_batch(&c).1);
+    }
     if sub == "inloop" {
         let c: crate::props::c11::InCase = serde_json::from_value(case).map_err(|e| e.to_string())?;
         return Ok(c13_keep(crate::props::c11::run_inloop(&c)).1);
@@ -1043,7 +1187,7 @@ pub static C09: HistProp = HistProp {
 pub static C13_META: PropMeta = PropMeta {
     id: "C13",
     level: "exploration",
-    rule: "cases: histories of insert_idle / cancel / drop-handle issued between dispatches, from source callbacks and from idle callbacks (idles inserting idles, idles cancelling other idles), interleaved with dispatches that process 0..n events or fail with an error from a source. oracle: model queue in insertion order; in an Ok dispatch every idle inserted before its idle phase runs exactly once in insertion order after every source callback; idles inserted during the idle phase run first in the next Ok dispatch; a failed dispatch runs none; cancelled idles never run; every idle closure dropped exactly once. non-trivial: >= 3 idles run with at least one inserted from a callback or an idle, or a cancel issued inside a dispatch, or a failed dispatch in between; distinct by case fingerprint",
+    rule: "cases: histories of insert_idle / cancel / drop-handle issued between dispatches, from source callbacks and from idle callbacks (idles inserting idles, idles cancelling other idles), interleaved with dispatches that process 0..n events or fail with an error from a source. oracle: model queue in insertion order; in an Ok dispatch every idle inserted before its idle phase runs exactly once in insertion order after every source callback; idles inserted during the idle phase run first in the next Ok dispatch; a failed dispatch runs none; cancelled idles never run; every idle closure dropped exactly once. non-trivial: >= 3 idles run with at least one inserted from a callback or an idle, or a cancel issued inside a dispatch, or a failed dispatch in between; distinct by case fingerprint. sub-check inloop: C11's deterministic run()/block_on() family, its idle rule. sub-check full_batch: n ping sources (n around and above the poller's event buffer of 1024) all ready at once plus 1..3 queued idle callbacks (optionally each queueing a follow-up): per dispatch call no source callback after an idle callback, queued idles run once in dispatch #0, follow-ups once in dispatch #1, every ping delivered once over the following dispatches",
     assumptions: ASSUME,
 };
 
@@ -1076,7 +1220,7 @@ pub static C13: HistProp = HistProp {
     epoll_each_step: false,
     workers: 8,
     table: None,
-    extra: Some(c13_inloop),
+    extra: Some(c13_extra),
 };
 
 // ------------------------------------------------------------------------------------------ C14
